@@ -644,3 +644,114 @@ Proof.
   - rewrite get_obj_fobj, <- Hid. apply nodup_fobj; [apply (J_ids st J) | exact Hx].
   - destruct (J_obj st J x Hx) as (_ & _ & O3 & _). rewrite Hid, Hc in O3. exact O3.
 Qed.
+
+(* ---- (3) what doReconnect leaves, exactly ---------------------------------------------------------------------- *)
+Lemma fobj_map : forall g l c, (forall y, c_id (g y) = c_id y) -> fobj (map g l) c = option_map g (fobj l c).
+Proof.
+  intros g l c Hg. unfold fobj. induction l as [|a l IH]; simpl; [reflexivity|].
+  rewrite Hg. destruct (N.eqb (c_id a) c); [reflexivity | exact IH].
+Qed.
+Lemma static_wiped : forall fail st c,
+  recreated fail (wiped st) c = recreated fail st c /\ is_sub_id (wiped st) c = is_sub_id st c.
+Proof.
+  intros fail st c. unfold recreated, is_sub_id. rewrite !get_obj_fobj. simpl.
+  rewrite fobj_map by reflexivity. destruct (fobj (m_objs st) c); simpl; auto.
+Qed.
+Lemma forget_stale : forall h, hs_is_none h = false -> forget h = HStale.
+Proof. destruct h; simpl; congruence. Qed.
+
+(* After doReconnect (from a state satisfying the invariant, so after any history):
+   - the gateway answers; it holds the MCU's handle and, in the order of mcu.clients, one handle and one room for every
+     client that was registered, is a publisher and whose "create" was not refused -- and nothing else;
+   - mcu.clients holds exactly the publishers that were registered (every subscriber has closed itself), and
+     mcu.publishers is empty;
+   - every registered publisher: "create" not refused: handle and room live, exactly one handle and one room at the
+     gateway; refused: it stays registered and open with a stale handle and room number, nothing of it at the gateway. *)
+Theorem reconnect_exact : forall st fail, JInv st ->
+  let st' := fst (reconnect st fail) in
+  reachable st' = true /\ m_pubs st' = [] /\
+  g_handles st' = 0 :: g_rooms st' /\
+  g_rooms st' = filter (recreated fail st) (m_clients st) /\ NoDup (g_rooms st') /\
+  (forall c, In c (m_clients st') <-> In c (m_clients st) /\ is_sub_id st c = false) /\
+  (forall c, In c (m_clients st') ->
+     exists x', get_obj st' c = Some x' /\ c_kind x' = Pub /\ c_closed x' = false /\
+       if mem_key (ckey x') fail
+       then c_handle x' = HStale /\ c_room x' = HStale /\ ~ In c (g_handles st') /\ ~ In c (g_rooms st')
+       else c_handle x' = HLive /\ c_room x' = HLive /\ countN c (g_handles st') = 1 /\ countN c (g_rooms st') = 1) /\
+  snd (reconnect st fail) = map ESubClosed (filter (is_sub_id st) (m_clients st)).
+Proof.
+  intros st fail J st'. destruct (reconnect_post st fail J) as [I1 I2 I3 I4 I5 I6 I7 I8 I9 I10].
+  fold st' in I1, I2, I3, I4, I5, I6, I7, I8, I9.
+  assert (FR : filter (recreated fail (wiped st)) (m_clients st) = filter (recreated fail st) (m_clients st)).
+  { apply filter_ext. intros c. apply static_wiped. }
+  assert (FS : filter (is_sub_id (wiped st)) (m_clients st) = filter (is_sub_id st) (m_clients st)).
+  { apply filter_ext. intros c. apply (static_wiped fail). }
+  simpl in I2, I3, I6, I7, I8. rewrite FR in I6, I7.
+  assert (CL : forall c, In c (m_clients st') <-> In c (m_clients st) /\ is_sub_id st c = false).
+  { intros c. rewrite I8. destruct (static_wiped fail st c) as [_ ->].
+    destruct (is_sub_id st c); intuition congruence. }
+  conjs; auto.
+  - unfold reachable. now rewrite I2, I3.
+  - rewrite I6, I7. reflexivity.
+  - rewrite I7. apply NoDup_filter, (J_cl_nodup st J).
+  - intros c Hc'. destruct (proj1 (CL c) Hc') as [Hc Hs].
+    destruct (J_has_obj st c J (J_cl st J c Hc)) as (y & Hy & Hid).
+    assert (G : get_obj st c = Some y) by (rewrite get_obj_fobj, <- Hid; apply nodup_fobj; [apply (J_ids st J) | exact Hy]).
+    assert (K : c_kind y = Pub).
+    { unfold is_sub_id in Hs. rewrite G in Hs. destruct (c_kind y); [reflexivity | discriminate]. }
+    destruct (J_obj st J y Hy) as (_ & _ & O3 & O4 & O5 & _).
+    apply memN_In in Hc. rewrite Hid, Hc in O3.
+    assert (Hcl : c_closed y = false) by (destruct (c_closed y); [discriminate | reflexivity]).
+    rewrite Hcl in O4. specialize (O5 K). rewrite Hcl in O5.
+    assert (Ex : recon_obj fail (m_clients st) (forget_obj y)
+                 = if mem_key (ckey y) fail then forget_obj y else relive (forget_obj y)).
+    { unfold recon_obj. simpl. rewrite Hid, Hc, K. reflexivity. }
+    assert (Hx' : In (recon_obj fail (m_clients st) (forget_obj y)) (m_objs st')).
+    { rewrite I9. simpl. apply in_map, in_map, Hy. }
+    rewrite Ex in Hx'. clear Ex.
+    destruct (mem_key (ckey y) fail) eqn:Fk.
+    + exists (forget_obj y).
+      assert (G' : get_obj st' c = Some (forget_obj y)).
+      { rewrite get_obj_fobj, <- Hid. apply (nodup_fobj _ (forget_obj y)); [apply (J_ids st' I1) | exact Hx']. }
+      destruct (J_obj st' I1 _ Hx') as (_ & _ & _ & _ & _ & _ & P7 & P8 & _).
+      specialize (P7 Hcl). specialize (P8 Hcl). simpl in P7, P8. rewrite hs_live_forget, Hid in P7, P8. rewrite andb_false_r in P8.
+      split; [exact G'|]. change (ckey (forget_obj y)) with (ckey y). rewrite Fk. simpl.
+      repeat split; auto; try (now apply forget_stale).
+      * intros Hin. apply countN_In in Hin. congruence.
+      * intros Hin. apply countN_In in Hin. congruence.
+    + exists (relive (forget_obj y)).
+      assert (G' : get_obj st' c = Some (relive (forget_obj y))).
+      { rewrite get_obj_fobj, <- Hid. apply (nodup_fobj _ (relive (forget_obj y))); [apply (J_ids st' I1) | exact Hx']. }
+      destruct (J_obj st' I1 _ Hx') as (_ & _ & _ & _ & _ & _ & P7 & P8 & _).
+      specialize (P7 Hcl). specialize (P8 Hcl). simpl in P7, P8. rewrite Hid in P7, P8. rewrite K in P8. simpl in P8.
+      split; [exact G'|]. change (ckey (relive (forget_obj y))) with (ckey y). rewrite Fk. simpl.
+      repeat split; auto.
+  - rewrite I10, FS. reflexivity.
+Qed.
+
+(* nothing else: whatever the gateway holds after doReconnect is the MCU's handle or belongs to a client registered
+   (and therefore open, a publisher) after it *)
+Corollary reconnect_nothing_else : forall st fail c, JInv st ->
+  let st' := fst (reconnect st fail) in
+  (In c (g_handles st') -> c = 0 \/ In c (m_clients st')) /\ (In c (g_rooms st') -> In c (m_clients st')).
+Proof.
+  intros st fail c J st'. destruct (reconnect_exact st fail J) as (_ & _ & H3 & H4 & _ & H6 & _). fold st' in H3, H4, H6.
+  assert (R : In c (g_rooms st') -> In c (m_clients st')).
+  { rewrite H4. intros Hin. apply filter_In in Hin. destruct Hin as [Hc Hr]. apply H6. split; [exact Hc|].
+    unfold recreated in Hr. unfold is_sub_id. destruct (get_obj st c) as [y|]; [|discriminate].
+    apply andb_true_iff in Hr. destruct Hr as [Hr _]. now rewrite Hr. }
+  split; [|exact R]. rewrite H3. intros [<- | Hin]; auto.
+Qed.
+
+Lemma run_snoc : forall ops o, run (ops ++ [o]) = step_st (run ops) o.
+Proof. intros. unfold run, run_from. rewrite fold_left_app. reflexivity. Qed.
+Lemma run_from_app : forall a b st, run_from st (a ++ b) = run_from (run_from st a) b.
+Proof. intros. unfold run_from. apply fold_left_app. Qed.
+Lemma run_app : forall a b, run (a ++ b) = run_from (run a) b.
+Proof. intros. apply run_from_app. Qed.
+Lemma step_st_reconnect : forall st f, step_st st (OReconnect f) = fst (reconnect st f).
+Proof. intros. unfold step_st. simpl. destruct (reconnect st f); reflexivity. Qed.
+Lemma step_st_close : forall st c rd rt, step_st st (OClose c rd rt) = fst (close st c rd rt).
+Proof. intros. unfold step_st. simpl. destruct (close st c rd rt); reflexivity. Qed.
+Lemma step_st_closeall : forall st o, step_st st (OCloseAll o) = fst (close_list st (owned_open st o)).
+Proof. intros. unfold step_st. simpl. destruct (close_list st (owned_open st o)); reflexivity. Qed.
